@@ -21,7 +21,8 @@ TECHNIQUE = ("static analysis: guard/flow rules over the CFG of the two objectiv
 LEVEL_TEXT = ("The selection logic is three one-line helpers plus two delivery sites; their agreement "
               "is decided for all (objno, number of objectives, index, multiobj) by enumerating every "
               "order type after verifying that the helpers read their inputs only through the "
-              "comparisons that define the order type. What each kept objective contains is C01/C02.")
+              "comparisons that define the order type. What each kept objective contains is C01/C02."
+              "  Also decided (added after the seeded rounds): the constant of the selected objective's expression is delivered whatever its sign.")
 LEVEL_NOTE = ("Trusted: clang 14 front end/CFG, tool/mpx.cc, the rule module (incl. the small "
               "expression evaluator used for the case enumeration).")
 DESIGN_REF = "DESIGN.md section 4, C12"
